@@ -1,9 +1,10 @@
 (* Executable driver of the WHOLE-TREE correspondence of the block engine: decodes a case printed by `vh blocktree cases`
-   (available space + a tree of block containers and leaves in pre-order: per node the 54 style integers of `vh c10`, 3 integers
+   (number of passes, the available space of each pass, then a tree of block containers and leaves in pre-order: per node the 54 style integers of `vh c10`, 3 integers
    of measure data, the child count), runs compute_root_layout + the memoised evaluation `bl_memo block_pre abs_child_block`
    (Model/BlockEngine.v, Model/BlockAbs.v, Model/BlockRoot.v: the definitions the whole-tree theorems of C04 / C12 / C05 / C06 /
-   C10 are about, with the exact-key caches of the engine skeleton) over the bit-exact F32 instance on a FRESH tree and encodes
-   every node's stored layout as the harness prints it after `R`: per node, pre-order,
+   C10 are about, with the exact-key caches of the engine skeleton) over the bit-exact F32 instance, starting from a FRESH tree,
+   once per pass on the same tree, and encodes every node's stored layout after every pass as the harness prints it after `R`:
+   per pass, per node, pre-order,
    [order; x; y; w; h; content w; content h; scrollbar w; scrollbar h; border l r t b; padding l r t b; margin l r t b].
    [-1] = out of fuel (never on the generated depth <= 4). *)
 From Coq Require Import ZArith Bool List.
@@ -56,13 +57,20 @@ Definition enc_layout (l : BLayout f32) : list Z :=
 
 Definition RUN_FUEL : nat := 12.
 
+Fixpoint dec_avails (n : nat) (l : list Z) : list (BSize (Avail f32)) * list Z :=
+  match n, l with
+  | S m, awt :: awb :: aht :: ahb :: rest =>
+      let '(as_, rest') := dec_avails m rest in (mkSize (dec_avail awt awb) (dec_avail aht ahb) :: as_, rest')
+  | _, _ => ([], l)
+  end.
+
 Definition run_with (abs_child : @AbsChild f32) (c : list Z) : list Z :=
   match c with
-  | awt :: awb :: aht :: ahb :: rest =>
-      let avail := mkSize (dec_avail awt awb) (dec_avail aht ahb) in
+  | np :: rest0 =>
+      let '(avails, rest) := dec_avails (Z.to_nat np) rest0 in
       let t := fst (dec_tree RUN_FUEL rest) in
-      match block_layout_pass block_pre abs_child RUN_FUEL t avail with
-      | Some ls => flat_map enc_layout ls
+      match block_layout_passes block_pre abs_child RUN_FUEL t avails with
+      | Some lss => flat_map (flat_map enc_layout) lss
       | None => [-1]
       end
   | _ => []
